@@ -79,6 +79,7 @@ def plan(tier: str) -> list[dict]:
     return [
         {"stratum": "crash-client", "runs": 160 if q else 8000, "params": {"victim": "c"}, "chunk": 10 if q else 200},
         {"stratum": "crash-runner", "runs": 320 if q else 16000, "params": {"victim": "r1"}, "chunk": 20 if q else 400},
+        {"stratum": "crash-recovery-task", "runs": 128 if q else 6000, "params": {"victim": "recovery"}, "chunk": 8 if q else 150},
         {"stratum": "fault-free", "runs": 48 if q else 2000, "params": {"victim": None}, "chunk": 6 if q else 100},
     ]
 
@@ -104,6 +105,11 @@ def run(seed: int, params: dict, replay: dict | None = None) -> dict:
     elif victim == "r1":
         kind = ["flat", "retry", "tree", "keyed", "stop"][idx % 5]
         K = 1 + ((idx // 5) * 3) % 240
+    elif victim == "recovery":
+        # the process that happens to execute a recovery core task is killed at the K-th statement of
+        # that body; recovery is made busy without any other fault by limits below normal latencies
+        kind = ["recover-pending", "recover-running"][idx % 2]
+        K = 1 + (idx // 2) % 40
     else:
         kind = rng.choice(["single", "par", "batch", "flat", "retry", "tree", "keyed"])
         K = 0
@@ -113,24 +119,57 @@ def run(seed: int, params: dict, replay: dict | None = None) -> dict:
         roots = [gen.gen_prog(rng, names, depth=2, p_kids=0.9, p_fail=0.0, work=(0.0, 0.02)) for _ in range(rng.randint(1, 2))]
     elif kind == "retry":
         roots = [gen.gen_prog(rng, names, depth=0, p_fail=0.9, max_fail=2, excs=("retry",), work=(0.0, 0.02)) for _ in range(n_jobs)]
+    elif victim == "recovery":
+        roots = [gen.gen_prog(rng, names, depth=0, p_fail=0.0, work=(0.5, 1.0, 2.0)) for _ in range(rng.randint(4, 6))]
     else:
         roots = [gen.gen_prog(rng, names, depth=0, p_fail=0.0, work=(0.01, 0.05)) for _ in range(n_jobs)]
     schedule = replay.get("schedule") if replay else None
     viol: list[dict] = []
-    with Deployment(seed, "sqlite", 2, clients=["c", "z"], services=True, policy=policy, policy_arg=parg, schedule=schedule, max_steps=600_000, max_time=300.0, conf=dict(CONF, max_threads=rng.choice([1, 2]))) as d:
+    conf = dict(CONF, max_threads=rng.choice([1, 2]))
+    n_runners = 2
+    if victim == "recovery":
+        n_runners = 3
+        if kind == "recover-pending":
+            conf.update({"max_pending_seconds": 1.0, "max_threads": 1})
+        else:
+            conf.update({"runner_considered_dead_after_minutes": 0.004})
+    with Deployment(seed, "sqlite", n_runners, clients=["c", "z"], services=True, policy=policy, policy_arg=parg, schedule=schedule, max_steps=900_000, max_time=330.0, conf=conf) as d:
         sim = d.sim
         w = d.w
+        if victim == "recovery" and kind == "recover-pending":
+            # a stalled worker: r3's task threads start arbitrarily late, so what r3 claims stays PENDING
+            sim.lazy_prefixes = ("r3/t",)
         d.register(simtasks.prog, max_retries=2)
         d.register(simtasks.keyed, running_concurrency=CC.KEYS, key_arguments=("key",), reroute_on_concurrency_control=True)
         accepted: list[str] = []
         state: dict[str, Any] = {"crashed_at": None, "site": None, "last_effect": None, "client_done": False, "count": 0}
-        victim_actor = sim.actor(victim) if victim else None
+        victim_actor = sim.actor(victim) if victim in ("c", "r1") else None
         r1 = d.runners["r1"]
+        dead: dict[str, Any] = {"runner_id": r1.runner_id if victim == "r1" else None}
+
+        def in_recovery_body(name: str) -> bool:
+            from pynenc import context
+
+            inv = context.get_dist_invocation_context("simapp")
+            try:
+                return inv is not None and inv.task.task_id.func_name == name
+            except Exception:  # noqa: BLE001
+                return False
 
         def hook(th: Any, kind_: str, detail: Any) -> None:
-            if victim_actor is None or state["crashed_at"] is not None or th.actor is not victim_actor:
+            nonlocal victim_actor
+            if state["crashed_at"] is not None or kind_ != "sql":
                 return
-            if kind_ != "sql":
+            if victim == "recovery":
+                want = "recover_pending_invocations" if kind == "recover-pending" else "recover_running_invocations"
+                if th.kind != "t" or not in_recovery_body(want):
+                    return
+                if victim_actor is None:
+                    victim_actor = th.actor
+                    dead["runner_id"] = d.runners[th.actor.name].runner_id
+                elif th.actor is not victim_actor:
+                    return
+            elif victim_actor is None or th.actor is not victim_actor:
                 return
             state["count"] += 1
             if state["count"] >= K:
@@ -214,7 +253,7 @@ def run(seed: int, params: dict, replay: dict | None = None) -> dict:
             for e in sorted(w.tlog, key=lambda e: (e["ts"], e["seq"])):
                 last_by_inv[e["inv"]] = e
             for inv_, e in last_by_inv.items():
-                if e["status"] in ("PENDING", "RUNNING") and victim == "r1" and e["owner"] == r1.runner_id:
+                if e["status"] in ("PENDING", "RUNNING") and dead["runner_id"] and e["owner"] == dead["runner_id"]:
                     try:
                         fname = app.state_backend.get_invocation(inv_).task.task_id.func_name
                     except Exception:  # noqa: BLE001
@@ -236,7 +275,7 @@ def run(seed: int, params: dict, replay: dict | None = None) -> dict:
                 queued = inv in queue
                 site = state["site"]
                 last = state["last_effect"]
-                dead_owner = victim == "r1" and o == r1.runner_id
+                dead_owner = bool(dead["runner_id"]) and o == dead["runner_id"]
                 if s in AVAILABLE and not queued:
                     cls = "available-not-queued"
                     st["probe.popped_not_claimed_at_crash"] = st.get("probe.popped_not_claimed_at_crash", 0) + 1
@@ -253,7 +292,7 @@ def run(seed: int, params: dict, replay: dict | None = None) -> dict:
                     cls = "other"
                 viol.append(
                     {
-                        "signature": f"C03/stranded/{cls}/status={s}/role={victim}",
+                        "signature": f"C03/stranded/{cls}/status={s}/role={'r1' if victim == 'recovery' else victim}{'-in-' + kind if victim == 'recovery' else ''}",
                         "message": f"{w.alias(inv)} was accepted but is not final 240 virtual seconds after the crash although r2 and the recovery services kept running: status={s}, queued={int(queued)}, owner={'dead runner' if dead_owner else o}; victim {victim} ({kind}) was killed before its statement #{K} {site} (last completed {last}); transitions: {[(e['status'], e['requester'][:8] if e['requester'] else None) for e in evs]}",
                     }
                 )
